@@ -110,6 +110,20 @@ theorem semiasync_bound_every_partition (P : Problem α) (γ ε : α) :
   fun c S hw perms hperms choose f k s hs hc pl hpl W U hW hU i =>
     C01.semiasync_solve_near_optimal P c γ ε S hw perms hperms choose f k s hs hc pl hpl W U hW hU i
 
+/-- closed form of the same statement: for every partition the optimal value function `W` and the returned policy's exact value `U`
+    exist (uniquely, `C01.IsOptimalValue`), and the bound holds for them -/
+theorem semiasync_bound_every_partition_closed (P : Problem α) (γ ε : α) :
+    ∀ (c : BatchCfg) (_S : C01.Setting P c γ) (_hw : C01.IdxWF P) (perms : Nat → Option (List Nat))
+      (_hperms : ∀ n, (orderOf' c.n (perms n)).Perm (List.range c.n)) (choose : Nat → Bool) (f k : Nat) (s : SState α)
+      (_hs : s.values.length = P.nS)
+      (_hc : (semiSolve P c γ (ε * (1 - γ) / γ) .maxDiff perms choose f k s).converged = true)
+      (pl : List Nat) (_hpl : (semiSolve P c γ (ε * (1 - γ) / γ) .maxDiff perms choose f k s).state.policy = some pl),
+      ∃ W U, C01.IsOptimalValue P γ W ∧ Tpol P γ (C01.polFn P.nS pl) U = U ∧ ∀ i,
+        |toFn P.nS (semiSolve P c γ (ε * (1 - γ) / γ) .maxDiff perms choose f k s).state.values i - W i| < ε ∧
+        0 ≤ W i - U i ∧ W i - U i < 2 * γ * ε / (1 - γ) :=
+  fun c S hw perms hperms choose f k s hs hc pl hpl =>
+    C01.semiasync_solve_near_optimal_closed P c γ ε S hw perms hperms choose f k s hs hc pl hpl
+
 /-- non-vacuity: two different valid layouts of the same 2-state problem (1 device × 2 batches of 1; 3 devices, 190 padding slots) -/
 example : C02.Valid C02.exP ⟨2, 1, 1⟩ ∧ C02.Valid C02.exP ⟨2, 1024, 3⟩ ∧ npad ⟨2, 1024, 3⟩ = 190 ∧ npad ⟨2, 1, 1⟩ = 0 := by decide
 
